@@ -118,6 +118,20 @@ func ruleYield(c *Ctx, fns []*ssa.Function) {
 		returnsFlag := fn.Signature.Results().Len() == 1 && isYieldResult(fn)
 		for _, k := range sites {
 			key := fmt.Sprintf("%s:yield-call", fnName(fn))
+			if good, why, applicable := wrappedYield(c.P, fn, k); applicable {
+				// the callback travels inside a wrapper closure to a helper with its own predicate polarity;
+				// afterwards nothing yield-like may be reachable in fn itself
+				found, wit := reachesWithout(c.P, k, false, func(in ssa.Instruction) bool { return isSite[in] }, func(ssa.Instruction) bool { return false })
+				switch {
+				case !good:
+					c.bad("R-YIELD", key, k.Pos(), why)
+				case found:
+					c.bad("R-YIELD", key, k.Pos(), "another yield-like call is reachable after the helper returned ("+wit+")")
+				default:
+					c.ok("R-YIELD", key, k.Pos(), why)
+				}
+				continue
+			}
 			hasBool := false
 			if b, ok := k.Type().Underlying().(*types.Basic); ok && b.Kind() == types.Bool {
 				hasBool = true
@@ -234,4 +248,165 @@ func returnsFalseOr(ret *ssa.Return, flag ssa.Value) bool {
 	// spilled named result: load of an alloc whose reaching store is false — accept
 	// only the direct forms; anything else is judged false (violated).
 	return false
+}
+
+// ---- callbacks handed on inside a wrapper closure, to a helper whose predicate may have the opposite polarity
+
+// contAfter: for helper h and its func parameter p (bool result): may p be called again after it returned
+// true / after it returned false?  ok=false if the uses of p's result are not plain branches.
+func contAfter(P *Prog, h *ssa.Function, p *ssa.Parameter) (contTrue, contFalse, ok bool) {
+	var calls []*ssa.Call
+	allInstrs(h, func(in ssa.Instruction) {
+		if c, isCall := in.(*ssa.Call); isCall && c.Call.Value == ssa.Value(p) {
+			calls = append(calls, c)
+		}
+	})
+	if len(calls) == 0 {
+		return false, false, false
+	}
+	isCall := func(in ssa.Instruction) bool {
+		c, ok := in.(*ssa.Call)
+		return ok && c.Call.Value == ssa.Value(p)
+	}
+	for _, r := range referrersOf(p) {
+		switch x := r.(type) {
+		case *ssa.Call:
+			if x.Call.Value != ssa.Value(p) {
+				return false, false, false // handed on again
+			}
+		case *ssa.DebugRef:
+		default:
+			return false, false, false
+		}
+	}
+	ok = true
+	for _, k := range calls {
+		branched := false
+		for _, r := range referrersOf(k) {
+			if _, dbg := r.(*ssa.DebugRef); !dbg {
+				branched = true
+			}
+		}
+		if !branched {
+			// the predicate's result is thrown away: whatever it said, what follows the call follows
+			if f, _ := reachesWithout(P, k, false, isCall, func(ssa.Instruction) bool { return false }); f {
+				contTrue, contFalse = true, true
+			}
+			continue
+		}
+		for _, r := range referrersOf(k) {
+			var tEdge, fEdge *ssa.BasicBlock
+			switch x := r.(type) {
+			case *ssa.If:
+				tEdge, fEdge = x.Block().Succs[0], x.Block().Succs[1]
+			case *ssa.UnOp:
+				if x.Op != token.NOT {
+					return false, false, false
+				}
+				for _, r2 := range referrersOf(x) {
+					if iff, isIf := r2.(*ssa.If); isIf {
+						tEdge, fEdge = iff.Block().Succs[1], iff.Block().Succs[0]
+					} else {
+						return false, false, false
+					}
+				}
+			case *ssa.DebugRef:
+				continue
+			default:
+				return false, false, false
+			}
+			if tEdge == nil {
+				continue
+			}
+			if f, _ := reachesWithout(P, tEdge.Instrs[0], true, isCall, func(ssa.Instruction) bool { return false }); f {
+				contTrue = true
+			}
+			if f, _ := reachesWithout(P, fEdge.Instrs[0], true, isCall, func(ssa.Instruction) bool { return false }); f {
+				contFalse = true
+			}
+		}
+	}
+	return contTrue, contFalse, ok
+}
+
+// wrappedYield: call hands a closure that wraps the yield value y of fn to a same-package helper.  Decides
+// whether "y returned false" makes the helper stop calling the closure.  applicable=false if call is not of
+// this form.
+func wrappedYield(P *Prog, fn *ssa.Function, call *ssa.Call) (good bool, why string, applicable bool) {
+	ys := yieldValues(fn)
+	h := staticCallee(&call.Call)
+	if h == nil || h.Blocks == nil {
+		return false, "", false
+	}
+	for ai, a := range call.Call.Args {
+		mc, isMC := a.(*ssa.MakeClosure)
+		if !isMC || ai >= len(h.Params) {
+			continue
+		}
+		cl := mc.Fn.(*ssa.Function)
+		var yfv *ssa.FreeVar
+		for bi, b := range mc.Bindings {
+			if ys[b] && bi < len(cl.FreeVars) {
+				yfv = cl.FreeVars[bi]
+			}
+		}
+		if yfv == nil {
+			continue
+		}
+		applicable = true
+		// the wrapper: exactly one call of the yield value; every return is its result or the negation of it
+		var ycall *ssa.Call
+		n := 0
+		inner := yieldValues(cl) // the captured callback, directly or through the cell it was spilled to
+		allInstrs(cl, func(in ssa.Instruction) {
+			if c, ok := in.(*ssa.Call); ok && !c.Call.IsInvoke() && (c.Call.Value == ssa.Value(yfv) || inner[c.Call.Value]) {
+				ycall = c
+				n++
+			}
+		})
+		if n != 1 {
+			return false, "the wrapper closure does not call the callback exactly once", true
+		}
+		neg, plain := false, false
+		shapeOK := true
+		allInstrs(cl, func(in ssa.Instruction) {
+			ret, ok := in.(*ssa.Return)
+			if !ok || len(ret.Results) != 1 {
+				return
+			}
+			switch v := ret.Results[0].(type) {
+			case *ssa.Call:
+				if v == ycall {
+					plain = true
+				} else {
+					shapeOK = false
+				}
+			case *ssa.UnOp:
+				if v.Op == token.NOT && v.X == ssa.Value(ycall) {
+					neg = true
+				} else {
+					shapeOK = false
+				}
+			default:
+				shapeOK = false
+			}
+		})
+		if !shapeOK || neg == plain {
+			return false, "the wrapper closure's result is not the callback's result or its negation", true
+		}
+		ct, cf, ok := contAfter(P, h, h.Params[ai])
+		if !ok {
+			return false, "how " + h.Name() + " reacts to its predicate's result could not be read", true
+		}
+		// callback said false ⇒ the wrapper returns `neg`; the helper must not call again after that value
+		again := cf
+		if neg {
+			again = ct
+		}
+		if again {
+			return false, "after the callback returned false the wrapper returns " + fmt.Sprint(neg) + ", on which " + h.Name() + " goes on calling it", true
+		}
+		return true, "the callback's false becomes " + fmt.Sprint(neg) + ", on which " + h.Name() + " stops", true
+	}
+	return false, "", false
 }
